@@ -27,7 +27,7 @@ import asimap.user_server
 from .auth import PWUser
 from .client import CAPABILITIES, ClientState, PreAuthenticated
 from .constants import MAX_INPUT_SIZE
-from .parse import BadCommand, parse_cmd_from_msg
+from .parse import BadCommand, IMAPClientCommand
 from .utils import UpgradeableReadWriteLock
 
 if TYPE_CHECKING:
@@ -894,14 +894,21 @@ class IMAPSubprocessInterface:
         IMAP client logs out, return `False` so that our calling layers know to
         disconnect the client.
         """
+        # NOTE: If we got as far as the tag of a command we can not parse, the
+        #       BAD carries it: the client is waiting for the answer to that
+        #       command.
+        #
+        imap_cmd = IMAPClientCommand(str(msg, "latin-1"))
         try:
-            imap_cmd = parse_cmd_from_msg(msg)
+            imap_cmd.parse()
         except BadCommand as e:
             # XXX We should track the number of bad commands we get. If it is
             #     over some sort of limit we should slow down our responses and
             #     ultimately disconnect the client.
             try:
-                await self.imap_client.push(f"* BAD {e}\r\n")
+                tag = imap_cmd.tag if imap_cmd.tag is not None else "*"
+                err = str(e).replace("\r", " ").replace("\n", " ")
+                await self.imap_client.push(f"{tag} BAD {err}\r\n")
                 return True
             except ConnectionError as e:
                 # Do not need a full stack trace for a connection error.
